@@ -187,7 +187,9 @@ carquet_schema_t* build_schema(
     schema->max_def_levels = carquet_arena_calloc(arena, schema->num_leaves, sizeof(int16_t));
     schema->max_rep_levels = carquet_arena_calloc(arena, schema->num_leaves, sizeof(int16_t));
 
-    if (!schema->leaf_indices || !schema->max_def_levels || !schema->max_rep_levels) {
+    /* A schema without columns needs no arrays (a zero-size arena request yields NULL) */
+    if (schema->num_leaves > 0 &&
+        (!schema->leaf_indices || !schema->max_def_levels || !schema->max_rep_levels)) {
         CARQUET_SET_ERROR(error, CARQUET_ERROR_OUT_OF_MEMORY, "Failed to allocate schema arrays");
         return NULL;
     }
